@@ -146,6 +146,15 @@ func (s *Stats) Record(sub string, nontrivial bool, classes []string, key func()
 		ss.Classes[c]++
 	}
 	if !nontrivial {
+		if ss.Evaluations == 1 && s.sampleN[sub] == 0 {
+			// always keep the very first case of a sub-check as a sample
+			kb := key()
+			if len(kb) > 1500 {
+				kb, _ = json.Marshal(map[string]any{"truncated_case_json_prefix": string(kb[:1500])})
+			}
+			wrapped, _ := json.Marshal(map[string]any{"check": sub, "case": json.RawMessage(kb), "trivial": true})
+			s.Samples = append(s.Samples, wrapped)
+		}
 		return
 	}
 	ss.NonTrivial++
